@@ -15,6 +15,14 @@ fn main() {
         eprintln!("usage: cbv <Cxx> [--tier quick|thorough] [--replay file] [--opt k=v]...");
         std::process::exit(2);
     }
+    // die with whatever started us (./check, a timeout wrapper): workers die with us in turn (par.rs), so a killed
+    // run leaves nothing spinning behind
+    // SAFETY: plain prctl on the calling process
+    unsafe { libc::prctl(libc::PR_SET_PDEATHSIG, libc::SIGKILL) };
+    // The daemon installs a tracing subscriber as the first thing in main(); with none installed the arguments
+    // of its log statements are never evaluated, which would hide whatever they do. Same maximum level as the
+    // daemon, output discarded, no timestamps (a timestamp would be a clock read of its own).
+    tracing_subscriber::fmt().with_max_level(tracing::Level::DEBUG).without_time().with_writer(std::io::sink).init();
     if args[0] == "litmus-dump" {
         print!("{}", seqmc::litmus::dump());
         return;
@@ -79,7 +87,7 @@ fn main() {
     };
     // watchdog: a run that hangs is a machinery failure (exit 2), never a verdict and never a hang
     let cap_s: f64 = std::env::var("VERIF_WALL_CAP_S").ok().and_then(|s| s.parse().ok()).unwrap_or(match tier {
-        Tier::Quick => 900.0,
+        Tier::Quick => 1800.0,
         Tier::Thorough => 6.0 * 3600.0,
     });
     let t0 = ctx.t0;
